@@ -50,7 +50,14 @@ def run_case(chk, cfg, rng, nops, ops=None, origin=""):
     for item in it:
         op = I.norm_op(item) if ops is not None else I.gen_next_op(rng, l, cfg)
         sy0 = l._oldscale[1]
-        out = I.apply_op(l, op)
+        try:
+            out = I.apply_op(l, op)
+        except OverflowError:
+            raise
+        except Exception as e:      # the implementation failed on a legal history
+            orc.errors.append(("internal_error", f"{op[0]} raised {type(e).__name__}: {e}"))
+            steps.append((op, ([], []), None))
+            break
         if l._oldscale[1] != sy0:
             nres += 1
         o = I.obs_of(l)
